@@ -228,11 +228,17 @@ impl IoHandle {
     /// Block the current thread on receiving an I/O completion.
     /// This fails if the channel has hung up.
     pub fn recv(&self) -> Result<CompleteIo, RecvError> {
+        #[cfg(feature = "verif")]
+        return self.completion_receiver.recv().inspect(crate::verif::io::on_recv);
+        #[cfg(not(feature = "verif"))]
         self.completion_receiver.recv()
     }
 
     /// Try to receive an I/O completion without blocking.
     pub fn try_recv(&self) -> Result<CompleteIo, TryRecvError> {
+        #[cfg(feature = "verif")]
+        return self.completion_receiver.try_recv().inspect(crate::verif::io::on_recv);
+        #[cfg(not(feature = "verif"))]
         self.completion_receiver.try_recv()
     }
 
